@@ -27,6 +27,10 @@ INSTANCES = {
                                                Regions="PL_Regions", Forms="PL_Forms", Fracs="PL_Fracs",
                                                CapStep="PL_CapStep", RemoveCases="PL_Remove", FillCases="PL_Fill",
                                                FillDeltas="PL_FillDeltas"), den_bound=1728),
+    # two different plates with the same display name
+    "LabDUP": dict(module="MC_Lab", consts=dict(Names="DUP_Names", Shape="DUP_Shape", InitVes="DUP_Init", Regions="PL_Regions",
+                                                Forms="DUP_Forms", Fracs="PL_Fracs", CapStep="PL_CapStep", RemoveCases="DUP_Remove",
+                                                FillCases="DUP_Fill", FillDeltas="PL_FillDeltas"), den_bound=1728),
     # create_solution / create_solution_from tables (one step from the initial state)
     "LabSOL": dict(module="MC_Lab", consts=dict(Subst="Subst5", Names="SOL_Names", Shape="SOL_Shape", InitVes="SOL_Init",
                                                 SolCases="SOL_CasesQuick", FromCases="SOL_FromQuick"), den_bound=1000),
